@@ -51,7 +51,7 @@ theorem writeStream_keyed_wp (fl : Flavour) (key : Bytes) (o : WriteOpts) (chunk
     (b0 : Bytes) {fs : FS} (hq : ContentValid cfg cache fs)
     (hb : BucketIs fs (bucketPath cfg cache key) b0) :
     wpD env (fun s => ContentValid cfg cache s ∧ GrowingAny cfg cache key b0 s)
-      (fun r s => StreamPost cfg cache o chunks r s ∧ BucketPost cfg cache key o chunks b0 r s)
+      (fun r s => StreamPost cfg cache (some key) o chunks r s ∧ BucketPost cfg cache key o chunks b0 r s)
       (writeStream cfg cache fl (some key) o chunks) fs := by
   unfold writeStream
   simp only [bind_eq, pure_eq]
@@ -62,7 +62,7 @@ theorem writeStream_keyed_wp (fl : Flavour) (key : Bytes) (o : WriteOpts) (chunk
   have done_err : ∀ (e : Err) (fsx : FS), ContentValid cfg cache fsx →
       BucketIs fsx (bucketPath cfg cache key) b0 →
       wpD env (fun s => ContentValid cfg cache s ∧ GrowingAny cfg cache key b0 s)
-        (fun r s => StreamPost cfg cache o chunks r s ∧ BucketPost cfg cache key o chunks b0 r s)
+        (fun r s => StreamPost cfg cache (some key) o chunks r s ∧ BucketPost cfg cache key o chunks b0 r s)
         (.done (Except.error e)) fsx := by
     intro e fsx hvx hbx
     exact ⟨⟨hvx, growing_of_bucketIs cfg cache hbx⟩, (fun s h => (by cases h)), (fun s h => (by cases h))⟩
@@ -153,7 +153,7 @@ theorem writeStream_keyed_wp (fl : Flavour) (key : Bytes) (o : WriteOpts) (chunk
             subst e
             rw [hws, hdata, halgo] at hck hcp
             rw [hopts] at hck
-            refine ⟨hck.1, hck.2.1, hck.2.2.1, ?_, cpath, hcp, by rw [hg4]; exact hsome⟩
+            refine ⟨by simp [hck.1], hck.2.1, hck.2.2.1, ?_, cpath, hcp, by rw [hg4]; exact hsome⟩
             intro n hn; rw [hck.2.2.2 n hn, hwritten]
           · intro sri hsri
             have e := hr4 sri hsri
